@@ -183,6 +183,15 @@ def run(ctx, rep):
         if a[0] == "path" and a[2] == ["size"] and any(c.endswith("::len") for c in sl["calls"]):
             okw = True
     rep.check("C08.c", "write_data/advance", okw, where=WD.loc(), what="write_data advances self.size by the number of bytes appended (R-ACCUM)")
+    # offsets restart at 0 with every pack: wherever the pack's bytes are taken out of the packer (mem::take of `file`) the
+    # running size is reset to 0 on every path to the return (whole-struct replacement counts too)
+    TD_ = prog.find1(r"^rustic_core::blob::packer::BasicPacker::take_data$")
+    takes_ = [bb for bb, t in TD_.calls() if "callee" in t and callee(t).endswith("std::mem::take") and op_place(t["args"][0]) and "file" in (flow.backward_slice(TD_, op_place(t["args"][0]))["fields"])]
+    resets_ = [bi for bi, blk in enumerate(TD_.blocks) for s_ in blk["s"] if s_[0] == "=" and ((place_fields(s_[1]) == ["size"] and s_[2][0] == "use" and s_[2][1][0] == "k" and s_[2][1][1].get("v") == 0) or (s_[1][0] == 1 and s_[1][1:] == ["*"]))]
+    rets_ = TD_.returns()
+    okr_ = bool(takes_) and bool(resets_) and not any(r_ in TD_.reachable_from(0, cut_blocks=resets_) for r_ in rets_ if r_ not in resets_)
+    rep.check("C08.c", "take_data/size-reset", okr_, where=TD_.loc(), what="taking a finished pack out of the packer resets the running size: offsets of the next pack start at 0" if okr_ else
+              "take_data hands out the pack's bytes without resetting self.size: the offsets recorded for the next pack's blobs start behind the previous pack's length")
     # ---- C08.d -------------------------------------------------------------------------------------
     AN = prog.find1(r"^rustic_core::blob::packer::Actor::new$")
     cls = list(prog.closures_of(AN))
@@ -279,14 +288,30 @@ def run(ctx, rep):
                     famh += [hb] + prog.closures_of(hb)
         lens_ = [(f_, bb) for f_ in famh for bb, t_ in f_.calls() if "callee" in t_ and callee(t_).endswith("packfile::HeaderEntry::length")]
         mul = []
+        per_item = False
         for (f_, bb) in lens_:
-            for bi, blk in enumerate(f_.blocks):
-                for s_ in blk["s"]:
-                    if s_[0] == "=" and s_[2][0] == "bin" and s_[2][1] in ("Mul", "MulWithOverflow"):
-                        for o in (s_[2][2], s_[2][3]):
-                            if op_place(o) and bb in flow.backward_slice(f_, op_place(o))["call_sites"]:
-                                mul.append(where(f_, bi))
-        per_item = any(f_.is_closure() or any(bb in C.loop_blocks(f_, h, l) for (l, h) in C.back_edges(f_)) for (f_, bb) in lens_)
+            sites = [(f_, bb)]
+            in_loop = any(bb in C.loop_blocks(f_, h, l) for (l, h) in C.back_edges(f_))
+            if f_.is_closure():
+                # where is the closure consumed? an iterating adaptor (fold/map/sum/..) evaluates it per blob, `Option::map_or`
+                # (e.g. on `first()`) evaluates it once
+                for P in famh:
+                    for cb, ct in P.calls():
+                        if "callee" not in ct:
+                            continue
+                        uses = any(d_[0] == "stmt" and d_[4][0] == "agg" and d_[4][1][0] == "closure" and d_[4][1][1] == f_.path for a_ in ct["args"] for d_ in P.defs().get(op_local(a_), []))
+                        if uses:
+                            sites.append((P, cb))
+                            if re.search(r"Iterator::(fold|try_fold|map|for_each|try_for_each|sum|filter_map|flat_map|scan)$", callee_decl(ct)):
+                                in_loop = True
+            per_item = per_item or in_loop
+            for (g_, gb) in sites:
+                for bi, blk in enumerate(g_.blocks):
+                    for s_ in blk["s"]:
+                        if s_[0] == "=" and s_[2][0] == "bin" and s_[2][1] in ("Mul", "MulWithOverflow"):
+                            for o in (s_[2][2], s_[2][3]):
+                                if op_place(o) and gb in flow.backward_slice(g_, op_place(o))["call_sites"]:
+                                    mul.append(where(g_, bi))
         okh = bool(lens_) and not mul and per_item
         rep.check("C08.h", f"{fname}/sums-each-entry", okh, where=F0.loc(), what=f"PackHeaderRef::{fname} adds HeaderEntry::length() of every blob" if okh else
                   f"PackHeaderRef::{fname} does not add up the length of each entry (length() multiplied at {sorted(set(mul))} / not evaluated per blob): sizes are wrong for packs mixing compressed and uncompressed blobs")
